@@ -60,6 +60,21 @@ def handleF : List Sexp → Sexp
     let ss : List String := statics.filterMap fun | .str s => some s | _ => none
     let ix : List (Option String) := idx.map fun | .list [.atom "lit", .str f] => some f | _ => none
     if compoundDeclared fs ss base ix then app "ok" [] else app "err" [.atom "UndeclaredVariable"]
+  | .atom "lets" :: ls =>
+    match optAll (ls.map fun | .list [.atom "let", .str n, e] => (TE.dec e : Option (TE Float)).map (fun e => (n, e)) | _ => none) with
+    | none => app "err" [.atom "decode"]
+    | some lets =>
+      -- static kinds as the token-type map records them (first declaration of a name wins, errors ignored)
+      let kinds := (stdLets ++ lets).foldl (fun (acc : Ctx × List Kind) (p : String × TE Float) =>
+        let k := p.2.typeOf acc.1
+        (if p.1 == "_" || (acc.1.get p.1).isSome || reservedNames.contains p.1 then acc.1 else (p.1, k) :: acc.1, acc.2 ++ [k])) (([] : Ctx), ([] : List Kind))
+      let chk : Sexp := match typeCheckWhere lets with | .ok _ => app "ok" [] | .error e => app "err" [.atom e.name]
+      let ev : Sexp := match evalWhere lets with
+        | .ok r => app "ok" ((r.reverse.drop 3).filterMap (fun p => match p.2 with
+            | .scalar q => (match asNumberCast q with | .ok x => some (.list [.str p.1, encNum x]) | .error _ => none)
+            | _ => none))
+        | .error e => app "err" [.atom e.name]
+      .list [.atom "check", chk, .atom "kinds", .list ((kinds.2.drop 3).map Kind.enc), .atom "eval", ev]
   | [.atom "expr", e] =>
     match (PExp.dec e : Option (PExp Float)) with
     | some e => .list [.atom "tc", boolAtom e.typeCheck, .atom "type", e.typeOf.enc, .atom "eval", encEval e.eval]
